@@ -129,9 +129,15 @@ impl<'a, 't> ObjectTree<'a, 't> {
 
     fn ensure_object_names(&mut self) {
         let mut gen = UniqueNameGenerator::new();
+        // generated names are reserved too, so "label" + 1 can't collide with the first
+        // name generated for a type named "Label1"
+        let mut reserved: HashMap<String, ()> =
+            self.id_map.keys().map(|k| (k.clone(), ())).collect();
         for data in self.nodes.iter_mut().filter(|d| d.name.is_none()) {
             let prefix = qtname::variable_name_for_type(data.class.name());
-            data.name = Some(gen.generate_with_reserved_map(prefix, &self.id_map));
+            let name = gen.generate_with_reserved_map(prefix, &reserved);
+            reserved.insert(name.clone(), ());
+            data.name = Some(name);
         }
     }
 
